@@ -3,6 +3,7 @@
 package internal
 
 import (
+	"os"
 	"context"
 	"errors"
 	"fmt"
@@ -241,6 +242,9 @@ func vhybridCases(tr *vtrace, salt uint64, pool bool, ncases int) {
 				beforeE := s.shards[idx].hashmap[key]
 				ok := s.Set(key, val, cost, time.Duration(ttl))
 				pull()
+				if os.Getenv("VERIF_DEBUG") != "" {
+					tr.comment(fmt.Sprintf("DBG set key %d: before %p after %p", key, beforeE, s.shards[idx].hashmap[key]))
+				}
 				tr.op("set", ss("1", i64(int64(key)), i64(int64(val)), i64(cost), i64(ttl), i64(now), u(h), "1"), ss(b2s(ok)))
 				if ok {
 					shadow[key] = val
@@ -300,16 +304,25 @@ func vhybridCases(tr *vtrace, salt uint64, pool bool, ncases int) {
 					continue
 				}
 				j := 0
-				if r.chance(25) {
+				if r.chance(25) && !pool {
+					// (with the entry pool on events are delivered in queue order only: the pool is documented to misapply an
+					// event that overtakes the insert event of its entry - a recycled entry then receives the stale insert -
+					// and C02 / C15 claim exact accounting for the pool-less configuration)
 					j = r.intn(len(pending))
 				}
 				it := pending[j]
 				pending = append(pending[:j], pending[j+1:]...)
 				ca := a0()
 				notes = nil
+				if os.Getenv("VERIF_DEBUG") != "" && it.entry != nil {
+					tr.comment(fmt.Sprintf("DBG sink code %d entry %p key %d cc %d pw %d tracked %v removed %v deleted %v weight %d hashok %v resched %v expire %d now %d", it.code, it.entry, it.entry.key, it.costChange, it.entry.policyWeight, it.entry.meta.prev != nil, it.entry.flag.IsRemoved(), it.entry.flag.IsDeleted(), it.entry.weight.Load(), s.hasher.Hash(it.entry.key) == it.hash, it.rechedule, it.entry.expire.Load(), s.timerwheel.clock.NowNano()))
+				}
 				s.policyMu.Lock()
 				s.sinkWrite(it)
 				s.policyMu.Unlock()
+				if os.Getenv("VERIF_DEBUG") != "" && it.entry != nil {
+					tr.comment(fmt.Sprintf("DBG    after: key %d pw %d tracked %v removed %v", it.entry.key, it.entry.policyWeight, it.entry.meta.prev != nil, it.entry.flag.IsRemoved()))
+				}
 				tr.op("sink", ss("3", i64(int64(j)), i64(now), ca, "0"), notes)
 			case x < 95: // the worker processes one hand-off item
 				if !parked {
@@ -326,6 +339,9 @@ func vhybridCases(tr *vtrace, salt uint64, pool bool, ncases int) {
 				<-done
 				parked = false
 				tr.op("worker", ss("14", b2s(!fail)), nil)
+				if os.Getenv("VERIF_DEBUG") != "" {
+					tr.comment("DBG worker ran")
+				}
 			default:
 				// dumps
 				sec.mu.Lock()
@@ -356,9 +372,15 @@ func vhybridCases(tr *vtrace, salt uint64, pool bool, ncases int) {
 			pending = pending[1:]
 			ca := a0()
 			notes = nil
+			if os.Getenv("VERIF_DEBUG") != "" && it.entry != nil {
+				tr.comment(fmt.Sprintf("DBG sink code %d entry %p key %d cc %d pw %d tracked %v removed %v deleted %v weight %d hashok %v resched %v expire %d now %d", it.code, it.entry, it.entry.key, it.costChange, it.entry.policyWeight, it.entry.meta.prev != nil, it.entry.flag.IsRemoved(), it.entry.flag.IsDeleted(), it.entry.weight.Load(), s.hasher.Hash(it.entry.key) == it.hash, it.rechedule, it.entry.expire.Load(), s.timerwheel.clock.NowNano()))
+			}
 			s.policyMu.Lock()
 			s.sinkWrite(it)
 			s.policyMu.Unlock()
+			if os.Getenv("VERIF_DEBUG") != "" && it.entry != nil {
+				tr.comment(fmt.Sprintf("DBG    after: key %d pw %d tracked %v removed %v", it.entry.key, it.entry.policyWeight, it.entry.meta.prev != nil, it.entry.flag.IsRemoved()))
+			}
 			tr.op("sink", ss("3", "0", i64(now), ca, "0"), notes)
 			pull()
 		}
@@ -381,7 +403,11 @@ func vhybridCases(tr *vtrace, salt uint64, pool bool, ncases int) {
 		var resident int64
 		s.RangeEntry(func(e *Entry[int, int]) { resident += e.weight.Load() })
 		if resident > size {
-			tr.viol(fmt.Sprintf("C15: resident cost %d above MaxSize %d after the workers caught up (secondary errors %d)", resident, size, sec.errCount))
+			detail := ""
+			s.RangeEntry(func(e *Entry[int, int]) {
+				detail += fmt.Sprintf(" [%p key %d cost %d policy weight %d tracked %v removed-flag %v]", e, e.key, e.weight.Load(), e.policyWeight, e.meta.prev != nil, e.flag.IsRemoved())
+			})
+			tr.viol(fmt.Sprintf("C15: resident cost %d above MaxSize %d after the workers caught up (secondary errors %d); policy total %d; resident:%s", resident, size, sec.errCount, s.policy.weightedSize, detail))
 		}
 		// C15: nothing stored without a deadline and never deleted may be in neither tier, unless the
 		// secondary store refused it
